@@ -50,6 +50,8 @@ def main():
         dst = os.path.join(ROOT, "seeded", "%s-%s" % (pid, n))
         if os.path.exists(os.path.join(dst, "result.json")) and not retrial:
             continue
+        if os.path.isdir(dst + ".rejected") and retrial:
+            shutil.rmtree(dst + ".rejected")
         if not os.path.exists(os.path.join(dst, "patch.diff")):
             r = sh(["python3", os.path.join(ROOT, "vlib", "confirm_seed.py"), d])
             line = [l for l in r.stdout.splitlines() if l.startswith("CONFIRMED") or l.startswith("REJECTED")]
@@ -70,7 +72,14 @@ def main():
                "violation": [l for l in v["lines"] if l.startswith("VIOLATION")][:2],
                "witness": [l for l in v["lines"] if not l.startswith("VIOLATION") and not l.startswith("KNOWN-FINDING")][:4]} for p, v in res.items()},
                "caught_by": caught, "when": time.strftime("%Y-%m-%d %H:%M:%S")}
-        json.dump(out, open(os.path.join(dst, "result.json"), "w"), indent=1)
+        rp = os.path.join(dst, "result.json")
+        if os.path.exists(rp):
+            old = json.load(open(rp))
+            first = old.get("first_trial") or {k: old.get(k) for k in ("caught_by", "when", "checks_run")}
+            out["first_trial"] = first
+            first_caught = first.get("caught_by") or [k for k, v in (first.get("checks_run") or {}).items() if v.get("exit") == 1]
+            out["status"] = "caught at first trial" if first_caught and caught else ("caught after strengthening" if caught else "NOT caught")
+        json.dump(out, open(rp, "w"), indent=1)
         print("TRIAL %s-%s: caught_by=%s  (%s)" % (pid, n, caught, {p: v["exit"] for p, v in res.items()}), flush=True)
 
 main()
